@@ -103,6 +103,8 @@ def run_whole(ctx, pid, n, mons=None, force=None, nontrivial=None, machine_repla
             for (r, c), flat in zip(owners, out):
                 d = machine.compare(c["expected"], flat)
                 replayed += 1
+                dist["translated-run():" + {1: "performs the recorded run, same final state", 9: "recorded run did not return (not compared)", 8: "machine rejected",
+                                            0: "different final state", 2: "returns early", 3: "cannot perform the recorded run"}.get(machine.code_status(flat), "no status")] += 1
                 if d:
                     disagreements.append({"what": f"HMS machine vs implementation, seed {r['seed']}: {d}", "seed": r["seed"], "spec": r["spec"]})
     hreplayed, hgens = 0, 0
